@@ -361,6 +361,29 @@ def check(dump, build, factor_budget_s=20):
                     bad(nm, "modulus_plus_one_div_four != (m+1)/4", sp["modulus_plus_one_div_four"], hex((m + 1) // 4))
             else:
                 bad(nm, f"unexpected kind {sp['kind']}")
+    # the same constant published twice (inherent const and arkworks trait const) must agree
+    for fname in ("Fq", "Fr", "Fp"):
+        for inh, tr in (("MODULUS_LIMBS", "PrimeField::MODULUS"), ("MODULUS_MINUS_ONE_DIV_TWO_LIMBS", "PrimeField::MODULUS_MINUS_ONE_DIV_TWO"),
+                        ("MODULUS_BIT_SIZE", "PrimeField::MODULUS_BIT_SIZE"), ("TRACE_LIMBS", "PrimeField::TRACE"),
+                        ("TRACE_MINUS_ONE_DIV_TWO_LIMBS", "PrimeField::TRACE_MINUS_ONE_DIV_TWO"),
+                        ("MULTIPLICATIVE_GENERATOR", "FftField::GENERATOR"), ("TWO_ADICITY", "FftField::TWO_ADICITY"),
+                        ("TWO_ADIC_ROOT_OF_UNITY", "FftField::TWO_ADIC_ROOT_OF_UNITY"), ("ZERO", "Field::ZERO"), ("ONE", "Field::ONE")):
+            a_, b_ = f"{fname}::{inh}", f"{fname} {tr}"
+            if a_ in C and b_ in C:
+                checks.append((f"{b_} == {a_}", "equals"))
+                if C[a_] != C[b_]:
+                    bad(b_, f"differs from the inherent constant {a_} it re-publishes", str(C[b_]), str(C[a_]))
+        sp = C.get(f"{fname} Field::SQRT_PRECOMP")
+        if sp and sp.get("kind") == "TonelliShanks" and f"{fname}::QUADRATIC_NON_RESIDUE_TO_TRACE" in C:
+            checks.append((f"{fname} Field::SQRT_PRECOMP.quadratic_nonresidue_to_trace == {fname}::QUADRATIC_NON_RESIDUE_TO_TRACE", "equals"))
+            if sp["quadratic_nonresidue_to_trace"] != C[f"{fname}::QUADRATIC_NON_RESIDUE_TO_TRACE"]:
+                bad(f"{fname} Field::SQRT_PRECOMP", "quadratic_nonresidue_to_trace differs from the inherent constant")
+    if "decaf TECurveConfig::GENERATOR" in C and "Element::GENERATOR (X,Y,Z,T)" in C:
+        checks.append(("decaf TECurveConfig::GENERATOR == Element::GENERATOR", "equals"))
+        Xc, Yc, Zc, _ = (I(v) for v in C["Element::GENERATOR (X,Y,Z,T)"])
+        gx_, gy_ = (I(v) for v in C["decaf TECurveConfig::GENERATOR"])
+        if Zc and ((Xc * pow(Zc, -1, q) - gx_) % q or (Yc * pow(Zc, -1, q) - gy_) % q):
+            bad("decaf TECurveConfig::GENERATOR", "differs from Element::GENERATOR")
     equals("Fp::MINUS_ONE", p - 1)
     satisfies("Fp::QUADRATIC_NON_RESIDUE", lambda v: legendre(I(v), p) == -1, "must be a quadratic non-residue mod p")
 
